@@ -443,3 +443,97 @@ def proximity(tier, seed):
     r = common.result(cases, cases, fails, "6 meshes x %d query points in 2.2 x the bounding box" % n_pts, exhaustive=False)
     r["failures"] = fails
     return r
+
+
+# ----------------------------------------------------------------------------- (d) narrow phase bookkeeping of ray_triangle_id
+
+
+def _mk_narrow(cand_ray, multiple):
+    """cand_ray[i] = the ray of candidate i (candidate i is triangle i)"""
+    c = len(cand_ray)
+    nr = max(cand_ray) + 1
+    tag = "candidates-of-rays=%s;%s" % ("".join(map(str, cand_ray)), "all-hits" if multiple else "first-hit")
+
+    @contract("C12", RT + ".ray_triangle_id", name="narrow-phase-returns-exactly-the-forward-hits[%s]" % tag, kind="bounded-shape", timeout=60000, max_paths=6000, note="broad phase, plane intersection and barycentric kernels replaced by their contracts (arbitrary candidate validity, locations and barycentric coordinates): the filtering / alignment / first-hit selection of the real function is what is verified")
+    def narrow(h):
+        import trimesh
+
+        tz = float(trimesh.constants.tol.zero)
+        L = h.reals("L", (c, 3))
+        B = h.reals("B", (c, 3))
+        V = h.bools("valid", c)
+        O = h.reals("O", (nr, 3))
+        dirs = [[0.0, 0.0, 1.0], [1.0, 0.0, 0.0], [0.0, -1.0, 0.0]][:nr]
+        tris = rnp.array([[[0.0, 0, 0], [1, 0, 0], [0, 1, 0]]] * c) + rnp.arange(c).reshape(-1, 1, 1)
+        normals = rnp.array([[0.0, 0, 1.0]] * c)
+        sym = h.mode == "sym"
+        np = h.np if sym else rnp
+        La, Ba = (np.array(L), np.array(B)) if sym else (rnp.array(L, dtype=float), rnp.array(B, dtype=float))
+        Va = np.array(list(V)) if sym else rnp.array(V, dtype=bool)
+        Oa = np.array(O) if sym else rnp.array(O, dtype=float)
+
+        def candidates(ray_origins, ray_directions, tree):
+            return (np.array(list(range(c))), np.array(list(cand_ray))) if sym else (rnp.arange(c), rnp.array(cand_ray))
+
+        def planes_lines(plane_origins, plane_normals, line_origins, line_directions, **kw):
+            return La[Va], Va
+
+        def to_bary(triangles, points, **kw):
+            return Ba[Va]
+
+        stubs = [(RT, "ray_triangle_candidates", candidates), ("trimesh.intersections", "planes_lines", planes_lines), ("trimesh.triangles", "points_to_barycentric", to_bary)]
+        if sym:
+            for mod, name, fn in stubs:
+                h.stub(mod + "." + name, fn)
+            out = h.fn(RT + ".ray_triangle_id")(np.array(tris.tolist()), Oa, np.array(dirs), multiple_hits=multiple, triangles_normal=np.array(normals.tolist()), tree=object())
+        else:
+            import importlib
+
+            saved = []
+            for mod, name, fn in stubs:
+                m = importlib.import_module(mod)
+                saved.append((m, name, getattr(m, name)))
+                setattr(m, name, fn)
+            try:
+                from trimesh.ray import ray_triangle as real
+
+                out = real.ray_triangle_id(tris, Oa, rnp.array(dirs), multiple_hits=multiple, triangles_normal=normals, tree=object())
+            finally:
+                for m, name, fn in saved:
+                    setattr(m, name, fn)
+        itri, iray, loc = out
+        n_out = len(itri)
+        dist = [sum([(L[i, k] - O[cand_ray[i], k]) * dirs[cand_ray[i]][k] for k in range(3)]) for i in range(c)]
+        pred = [h.all([V[i]] + [B[i, k] > -tz for k in range(3)] + [B[i, k] < 1 + tz for k in range(3)] + [dist[i] > -1e-6]) for i in range(c)]
+        rows_ok = []
+        for k in range(n_out):
+            alts = []
+            for i in range(c):
+                alts.append(h.all([itri[k] == i, iray[k] == cand_ray[i], pred[i]] + [h.exact(loc[k][a], L[i, a]) for a in range(3)]))
+            rows_ok.append(h.any(alts))
+        h.check("every-row-is-a-forward-hit-with-its-own-ray-and-location", h.all(rows_ok) if rows_ok else True)
+        if multiple:
+            h.check("every-forward-hit-is-returned-once-in-candidate-order", h.all([h.implies(pred[i], h.any([itri[k] == i for k in range(n_out)])) for i in range(c)] + [itri[k] < itri[k + 1] for k in range(n_out - 1)]))
+        else:
+            conds = []
+            for r in range(nr):
+                mine = [i for i in range(c) if cand_ray[i] == r]
+                anyhit = h.any([pred[i] for i in mine])
+                rows = [iray[k] == r for k in range(n_out)]
+                # exactly one row for a ray that hits, none otherwise
+                count = sum([h.ite(x, 1, 0) if sym else int(bool(x)) for x in rows]) if rows else 0
+                conds.append(h.implies(anyhit, count == 1) if sym else ((count == 1) if anyhit else True))
+                conds.append(h.implies(h.not_(anyhit), count == 0) if sym else ((count == 0) if not anyhit else True))
+                # the row of ray r is a nearest hit
+                for k in range(n_out):
+                    for i in mine:
+                        nearest = h.all([h.implies(pred[j], dist[i] <= dist[j]) if sym else ((dist[i] <= dist[j] + 1e-12) if pred[j] else True) for j in mine])
+                        conds.append(h.implies(h.all([iray[k] == r, itri[k] == i]), nearest) if sym else (nearest if (iray[k] == r and itri[k] == i) else True))
+            h.check("one-row-per-hitting-ray-and-it-is-the-nearest", h.all(conds))
+
+    return narrow
+
+
+for _cr in ((0,), (0, 0), (0, 0, 0), (0, 0, 1), (0, 1, 1), (0, 0, 1, 1)):
+    for _mh in (True, False):
+        _mk_narrow(_cr, _mh)
